@@ -97,7 +97,10 @@ loop:
 
 		// Try for a comment.
 		var comment string
-		comment, ok, err = jsComment.Parse(pi)
+		if stringLiteralDelimiter == jsQuoteNone {
+			// Inside a string literal, // and /* are just text.
+			comment, ok, err = jsComment.Parse(pi)
+		}
 		if err != nil {
 			return nil, false, err
 		}
